@@ -1,18 +1,21 @@
-"""Development tool: copy seeds produced in a scratch worktree (seedCxx_k.diff, demoCxx_k.py) into /verif/seeded/Cxx_k/."""
+"""Development tool: copy seeds produced in a scratch worktree (seedCxx_k.diff, demoCxx_k.py) into /verif/seeded/Cxx_<k+offset>/.
+
+usage: python -m vlib.seedimport <Cxx> [<scratch root, default /tmp/seed>] [<index offset, default 0>]"""
 import json
 import os
 import shutil
 import sys
 
 pid = sys.argv[1]
-needs = sys.argv[2:] if len(sys.argv) > 2 else []
-wt = "/tmp/seed/wt_%s" % pid
+root = sys.argv[2] if len(sys.argv) > 2 else "/tmp/seed"
+off = int(sys.argv[3]) if len(sys.argv) > 3 else 0
+wt = "%s/wt_%s" % (root, pid)
 for k in (1, 2, 3):
     d = os.path.join(wt, "seed%s_%d.diff" % (pid, k))
     m = os.path.join(wt, "demo%s_%d.py" % (pid, k))
     if not (os.path.exists(d) and os.path.exists(m)):
         continue
-    out = "/verif/seeded/%s_%d" % (pid, k)
+    out = "/verif/seeded/%s_%d" % (pid, k + off)
     os.makedirs(out, exist_ok=True)
     shutil.copy(d, os.path.join(out, "patch.diff"))
     shutil.copy(m, os.path.join(out, "demo.py"))
